@@ -724,6 +724,7 @@ def run(res, tier):
                 "4 KB mem_node, 16 KB rock slot payload or 32 KB shared-memory page boundary. non-trivial = at least one "
                 "response was served from the cache")
     os.environ.setdefault("OCAMLRUNPARAM", "s=1M")
+    os.environ.setdefault("VERIF_STALL", "180")     # a 70 KB scenario takes seconds in the extracted model on a loaded machine
     try:
         std.run_lab(res, PID, tier, area="hits", gens=["hits", "hitspage"], gen_scenarios=gen_scenarios,
                     run_impl=run_impl, to_case=to_case, oracle=oracle,
